@@ -18,7 +18,7 @@ import itertools
 import re
 
 from ..common import find_nodes, guards, lib_reachable, short, src_file, src_fn, where
-from ..exprs import is_const, mentions, strip
+from ..exprs import simplify, is_const, mentions, strip
 from ..grammar import GrammarError, load_parser_module
 from ..charset import Unknown
 from ..mirlib import Expr, Program, expr_str, op_const, op_place
@@ -173,6 +173,15 @@ class Ctx:
             return False, "", "assertion on the conversion path"
         if kind.startswith("assert:"):
             return False, "", "arithmetic check (%s)" % kind
+        if kind == "split_at" and len(t["args"]) == 2:
+            # str::split_at at the offset found by find() on the same string is on a char boundary (I10)
+            base = strip(ex.operand(t["args"][0]))
+            off = strip(simplify(ex.operand(t["args"][1])))
+            tys = t.get("arg_tys", [])
+            if tys and tys[0] in ("&str", "&alloc::string::String") and off[0] == "field" and "@Some" in off[2] and \
+                    strip(off[1])[0] == "call" and strip(off[1])[1].endswith("str::<impl str>::find") and strip(strip(off[1])[2][0]) == base:
+                return True, "I10 char-boundary offset", "split_at at the Some of %s.find(..) on the same string" % expr_str(base)
+            return False, "", "split_at with offset `%s`" % expr_str(off)[:80]
         return False, "", "unrecognised panic kind"
 
     def _render_to_string(self, p, recv):
